@@ -288,6 +288,11 @@ fn one(ctx: &mut Ctx, x: &[u8], family: &str) -> Option<u64> {
 }
 
 #[cfg(dnssector_verif)]
+pub fn one_pub(ctx: &mut Ctx, x: &[u8], family: &str) {
+    one(ctx, x, family);
+}
+
+#[cfg(dnssector_verif)]
 pub fn run(ctx: &mut Ctx) {
     // 1. adversarial families across sizes, with exponent fit (done by shard 0 only: deterministic and cheap)
     let sizes: &[usize] = &[1024, 2048, 4096, 8192, 16384, 32768, 65000];
